@@ -103,6 +103,34 @@ def dgram_part(ctx):
     return len(scripts)
 
 
+def wt_part(ctx):
+    """the WebTransport twin of the datagram code on a real session (loopback): messages of 1..6 segments through both sending sites,
+    echoed by the peer; whatever is handed up is exactly one written message (loss is not judged on a real link)."""
+    ctx.assumptions += [
+        "WebTransport datagram path (MonC14w): real webtransport.Transport over a real session (quic-go over loopback UDP), peer echoes every "
+        "datagram; losses are possible and not judged, only 'handed up => exactly one written message, once'",
+    ]
+    scs = []
+    P = 1188
+    for k, lens in enumerate(([10, P, P + 1, 2 * P + 594, 5], [3 * P, 1, 6 * P - 1, P - 1], [0, 4 * P + 7, 2 * P, 700, 5 * P + 1])):
+        for rep in range(2 if ctx.quick() else 6):
+            steps = [{"a": "dwrite", "n": n} for n in lens] + [{"a": "ddrain"}]
+            scs.append({"id": "C14/wt/%d/%d" % (k, rep), "kind": "wtreal", "p": {"mode": "off", "level": 0, "bits": 0, "content": "mix", "seed": 10 + 7 * k + rep}, "steps": steps})
+    ctx.harness_cmd = "vhwswindow"
+    ctx.vh = None
+    try:
+        trace = ctx.run_scenarios(scs, "c14wt", par=2)
+    finally:
+        ctx.harness_cmd = "vh"
+        ctx.vh = None
+    verdicts, _ = ctx.validate(trace, "MonC14w")
+    n = ctx.judge(scs, trace, verdicts)
+    handed = ctx.cov["clauses"].get("handed", 0)
+    if n == 0 or handed == 0:
+        raise Inconclusive("the WebTransport datagram scenarios delivered nothing (no loopback UDP?)")
+    return n
+
+
 def run():
     ctx = Ctx("C14")
     ctx.assumptions += [
@@ -137,6 +165,7 @@ def run():
     verdicts, r = ctx.validate(trace, "MonC14", consts={"P": 1188, "Expiry": 1, "MaxTicks": 9, "MaxBad": 9, "MaxSegIdx": 65535, "GenCanon": "FALSE"})
     ctx.judge(scs, trace, verdicts)
     nscripts = dgram_part(ctx)
+    wt_part(ctx)
     ctx.finish(rule="scenarios = every complete path (send / deliver in every order / lose every subset / tick / gc / malformed) "
                     "of the generator configurations of Segment.tla, replayed lock-step on segment.SendTo and ReadBuffers; "
                     "plus every complete environment script of DgramLink.tla (%d scripts: <= %d writes of 1..3 segments, each with "
